@@ -1,6 +1,7 @@
 """C07 - Names resolve lexically; out-of-scope or misplaced constructs are rejected."""
 import progflow
 import staticflow
+from props import c09
 
 RULE = ("direction A: TLC enumerates spec/FamC07.tla: every ordered pair (definition site, use site) of a variable over 18 definition and 22 use sites "
         "of one skeleton program (top level before/after, if/else-if/else bodies and conditions, nested block, loop header/condition/post/body, range "
@@ -36,4 +37,7 @@ def run(ctx):
         if not v["ok"]:
             bad.append((c, v, progflow.signature(c, v)))
     progflow.report(ctx, bad)
+    # the same rules across import boundaries: one broken construct per imported file, unknown aliases, private names (spec/FamC09.tla, linked by TshModules)
+    imp = [c for c in ctx.tlc_family("FamC09", constants={"Tier": '"quick"'}, timeout=3000) if "/libneg/" in c["id"] or "/neg/" in c["id"]]
+    c09.judge_cases(ctx, imp, "implink")
     return ctx.finish(rule=RULE, assumptions=ASSUME)
